@@ -19,7 +19,9 @@ open Io
 let p : Hist.hist_params =
   { Hist.hp_as = Extracted.addsub; Hist.hp_div = Extracted.div; Hist.hp_bits = Extracted.bits;
     Hist.hp_mul = Extracted.mul; Hist.hp_pow = Extracted.pgr_pow; Hist.hp_gcd = Extracted.pgr_gcd;
-    Hist.hp_roots = Extracted.pgr_roots; Hist.hp_radix = Extracted.radix }
+    Hist.hp_roots = Extracted.pgr_roots; Hist.hp_radix = Extracted.radix;
+    Hist.hp_iter = Extracted.iter; Hist.hp_serde = Extracted.serde;
+    Hist.hp_bytes = Extracted.byteio; Hist.hp_sign = Extracted.signs }
 
 let sign_of = function
   | "-" -> Base.Minus | "0" -> Base.NoSign | "+" -> Base.Plus | s -> failwith ("bad sign " ^ s)
